@@ -54,6 +54,8 @@ def check_case(case: dict) -> Result:
         return _check_lattice4(case)
     if kind == "tolerance":
         return _check_tolerance(case)
+    if kind == "sam-scale":
+        return _check_sam_scale(case)
     raise ValueError(kind)
 
 
@@ -285,6 +287,45 @@ def _lib_predicates_fast(n: int, v) -> dict:
     return {"sa": bool(is_superadditive(g)), "mono": bool(is_monotone_decreasing(g)), "sam": bool(is_sam(g))}
 
 
+def _check_sam_scale(case: dict) -> Result:
+    """is_sam must be is_superadditive AND is_monotone_decreasing, with the same documented relative tolerance, at every scale:
+    an integer SAM game, one split inequality violated by a relative amount, the whole game multiplied by a power of two."""
+    from incomplete_cooperative.game_properties import is_monotone_decreasing, is_sam, is_superadditive
+    from .. import repo
+    res = Result()
+    n, s, rel, k = case["n"], case["s"], case["rel"], case["k"]
+    v = [float(x) for x in case["v"]]
+    if popcount(s) < 2:
+        res.label("sam-scale-skip")
+        return res
+    best = max(v[a] + v[s ^ a] for a in range(1, s) if a & s == a)
+    if best == 0:
+        res.label("sam-scale-skip")
+        return res
+    if rel:
+        v[s] = best - abs(best) * rel
+    scale = 2.0 ** k
+    v = [x * scale for x in v]
+    if not is_monotone_nonincreasing(v, n):
+        res.label("sam-scale-skip")
+        return res
+    others = [(a, b) for a, b in sa_violations(v, n, abs(best) * scale * 1e-15) if (a | b) != s]
+    if others:
+        res.label("sam-scale-skip")
+        return res
+    g = repo.full_game(n, v)
+    sa, mono, sam = bool(is_superadditive(g)), bool(is_monotone_decreasing(g)), bool(is_sam(g))
+    if sam != (sa and mono):
+        res.fail(f"is_sam!=is_superadditive-and-monotone :: n={n} scale 2^{k} relative violation {rel:g}: is_sam={sam}, is_superadditive={sa}, is_monotone_decreasing={mono}")
+    if rel <= 1e-12 and not sam:
+        res.fail(f"is_sam-tolerance :: scale 2^{k}: violation by relative {rel:g} rejected (documented rtol 1e-9)")
+    if rel >= 1e-6 and sam:
+        res.fail(f"is_sam-tolerance :: scale 2^{k}: violation by relative {rel:g} accepted (documented rtol 1e-9)")
+    res.nontrivial = True
+    res.label(f"sam-scale k={k} rel={rel:g}")
+    return res
+
+
 def _check_tolerance(case: dict) -> Result:
     """A superadditive float game with one inequality violated by a relative delta."""
     from incomplete_cooperative.game_properties import is_superadditive
@@ -364,6 +405,16 @@ def tol_cases(draw, n: int):
             "rel": draw(st.sampled_from([1e-13, 1e-12, 1e-6, 1e-5, 1e-3]))}
 
 
+@st.composite
+def sam_scale_cases(draw, n: int):
+    from ..games import sam_games
+    g = draw(sam_games(n, n))
+    size = 1 << n
+    cands = [s for s in range(size) if popcount(s) >= 2]
+    return {"kind": "sam-scale", "n": n, "v": g["v"], "s": draw(st.sampled_from(cands)),
+            "rel": draw(st.sampled_from([0.0, 1e-13, 1e-12, 1e-6, 1e-5, 1e-3])), "k": draw(st.sampled_from([-40, -34, -20, 0, 20, 30, 40]))}
+
+
 def plan(tier: str) -> list[dict]:
     if tier == "quick":
         return ([{"mode": "enum", "cases": [{"kind": "coalitions", "n": n} for n in range(1, 8)] + [{"kind": "helpers", "n": n} for n in range(1, 8)], "cost": 2},
@@ -372,7 +423,7 @@ def plan(tier: str) -> list[dict]:
                  {"mode": "enum", "cases": [{"kind": "lattice", "L": 1, "top": t} for t in (-1, 0, 1)], "cost": 3},
                  {"mode": "enum", "cases": [{"kind": "lattice4", "values": [0, 1]}], "cost": 3},
                  {"mode": "games", "n": 4, "examples": 300, "cost": 2}, {"mode": "games", "n": 5, "examples": 100, "cost": 2},
-                 {"mode": "tol", "n": 4, "examples": 80, "cost": 1}])
+                 {"mode": "tol", "n": 4, "examples": 80, "cost": 1}, {"mode": "samscale", "n": 4, "examples": 200, "cost": 1}])
     return ([{"mode": "enum", "cases": [{"kind": "coalitions", "n": n} for n in range(1, 9)] + [{"kind": "helpers", "n": n} for n in range(1, 10)], "cost": 3},
              {"mode": "enum", "cases": [{"kind": "coalitions", "n": 9}], "cost": 8},
              {"mode": "enum", "cases": [{"kind": "coalitions", "n": 10}], "cost": 30},
@@ -383,7 +434,8 @@ def plan(tier: str) -> list[dict]:
             + [{"mode": "enum", "cases": [{"kind": "lattice4", "values": [-1, 0, 1], "fixed": {"15": t, "14": u}}], "cost": 12} for t in (-1, 0, 1) for u in (-1, 0, 1)]
             + [{"mode": "games", "n": 4, "examples": 15000, "cost": 6} for _ in range(3)]
             + [{"mode": "games", "n": 5, "examples": 4000, "cost": 6} for _ in range(3)]
-            + [{"mode": "tol", "n": 4, "examples": 800, "cost": 3}, {"mode": "tol", "n": 5, "examples": 300, "cost": 3}])
+            + [{"mode": "tol", "n": 4, "examples": 800, "cost": 3}, {"mode": "tol", "n": 5, "examples": 300, "cost": 3},
+               {"mode": "samscale", "n": 4, "examples": 3000, "cost": 3}, {"mode": "samscale", "n": 5, "examples": 800, "cost": 3}])
 
 
 def run_shard(spec: dict, ctx: Ctx) -> None:
@@ -395,5 +447,7 @@ def run_shard(spec: dict, ctx: Ctx) -> None:
         ctx.extra["exhaustive_parts"] = parts
     elif spec["mode"] == "games":
         ctx.run_given(pred_games(spec["n"]), check_case, spec["examples"])
+    elif spec["mode"] == "samscale":
+        ctx.run_given(sam_scale_cases(spec["n"]), check_case, spec["examples"])
     else:
         ctx.run_given(tol_cases(spec["n"]), check_case, spec["examples"])
